@@ -314,8 +314,8 @@ def scan_output(doc):
 
 def check_occurrence(doc, page, inner, exp):
     """the rendered reference on one page against the expected target (relative to the output root)"""
-    if "<a" not in inner and "[[" not in inner:
-        return None                      # tags stripped (<meta name="description">, search index): nothing to follow
+    if "<a" not in inner:
+        return None          # tags stripped (<meta name="description">) or a source listing: nothing to follow
     m = re.fullmatch(r'\s*<a(?: href="([^"]*)")?>(.*?)</a>\s*', inner, flags=re.S)
     if not m:
         return f"not an <a> element: {inner[:80]!r}"
@@ -340,8 +340,49 @@ def check_occurrence(doc, page, inner, exp):
     return None
 
 
+def spied_run(root, options, body):
+    """a full FORD run that records, for every marked reference, what convert_link made of it and in which
+    context; returns (error, log text, {marker: record}, Project object)"""
+    import ford._markdown as M
+    import ford.fortran_project as FP
+    records, holder = {}, {}
+    orig_handle, orig_corr = M.FordLinkProcessor.handleMatch, FP.Project.correlate
+
+    def handle(self, m, data):
+        el, a, b = orig_handle(self, m, data)
+        mk = re.search(r"Rk(\d+)= $", data[:m.start(0)])
+        if mk and int(mk.group(1)) not in records:
+            records[int(mk.group(1))] = {"ctx": self.md.current_context, "ref": m.group(0), "href": el.get("href"),
+                                         "text": el.text, "path": self.md.current_path, "cwd": os.getcwd(),
+                                         "base": self.md.base_url}
+        return el, a, b
+
+    def corr(self, *a, **k):
+        holder["project"] = self
+        return orig_corr(self, *a, **k)
+    M.FordLinkProcessor.handleMatch, FP.Project.correlate = handle, corr
+    try:
+        data, log, err = F.full_run_inprocess(root, options, body=body)
+    finally:
+        M.FordLinkProcessor.handleMatch, FP.Project.correlate = orig_handle, orig_corr
+    return err, log, records, holder.get("project")
+
+
+def record_target(rec):
+    """URL (relative to the output root, with fragment) that the recorded href designates"""
+    href = rec["href"]
+    if href is None:
+        return None
+    if href.startswith("http"):
+        return href
+    start = str(rec["path"]) if rec["path"] is not None else rec["cwd"]
+    path, sep, frag = href.partition("#")
+    rel = os.path.relpath(os.path.normpath(os.path.join(start, path)), str(rec["base"]))
+    return rel + (sep + frag if sep else "")
+
+
 def end_to_end(chk, rng, nproj):
-    stats = {"runs": 0, "markers": 0, "occurrences": 0, "pages_with_refs": 0, "code_spans": 0}
+    stats = {"runs": 0, "markers": 0, "occurrences": 0, "pages_with_refs": 0, "code_spans": 0, "judged": 0}
     for k in range(nproj):
         pj = G.gen(rng, {"p_private": 0.0})
         w, p, ab, md, base = setup_project(G.fill(pj["files"], {}))
@@ -349,13 +390,11 @@ def end_to_end(chk, rng, nproj):
         page_keys = ["@project", "@summary", "@page", "@subpage"]
         marks = e2e_docs(rng, ab, [d for d in pj["docs"] if rng.random() < 0.6] + page_keys, 2)
         skip = set()
-        for attempt in range(2):
+        for attempt in range(2):        # drop the references that raise (they would abort the run)
             docs = doc_texts(marks, skip)
-            files = G.fill(pj["files"], docs)
-            w, p, ab, md, base = setup_project(files)
+            w, p, ab, md, base = setup_project(G.fill(pj["files"], docs))
             try:
                 ctx_of = locate(ab, marks, page_keys)
-                exp = {}
                 for kk, (key, r) in marks.items():
                     if kk in skip:
                         continue
@@ -366,8 +405,6 @@ def end_to_end(chk, rng, nproj):
                                     path=None if ctx_of.get(kk) is not None else base / "page")
                     if res[0] in ("err", "other"):
                         skip.add(kk)
-                    else:
-                        exp[kk] = expected_of(res)
             finally:
                 w.__exit__()
         docs = doc_texts(marks, skip)
@@ -376,39 +413,56 @@ def end_to_end(chk, rng, nproj):
         files["pages/sub/index.md"] = "title: Sub\n\n" + docs.get("@subpage", "none") + "\n"
         summary = docs.get("@summary", "none").split("\n")[0]
         with F.Work(files) as w2:
-            data, log, err = F.full_run_inprocess(w2.root, {"page_dir": "./pages", "summary": summary},
-                                                  body=docs.get("@project", "Project.") + "\n")
+            err, log, records, project = spied_run(w2.root, {"page_dir": "./pages", "summary": summary},
+                                                   docs.get("@project", "Project.") + "\n")
             stats["runs"] += 1
-            chk.count(("e2e", tuple(sorted(files))), sample={"e2e_files": sorted(files), "markers": len(exp)})
-            if err:
+            chk.count(("e2e", tuple(sorted(files))), sample={"e2e_files": sorted(files), "markers": len(records)})
+            if err or project is None:
                 chk.violation("failing-input", {"what": "FORD failed on a project whose references all convert",
                                                 "error": err, "log": log[-1500:], "files": files}, True)
                 continue
             doc = w2.root / "doc"
+            # (1) what the run resolved, judged by Model and Spec on the run's own Project object
+            ab2 = L.Abstract(project)
+            cases, infos = [], []
+            for kk, rec in sorted(records.items()):
+                if kk not in marks or ab2.unsupported():
+                    continue
+                ctx = ab2.ids.get(id(rec["ctx"])) if rec["ctx"] is not None else None
+                if rec["ctx"] is not None and ctx is None:
+                    continue
+                tgt = record_target(rec)
+                res = ("plain",) if tgt is None else ("link", ab2.by_url().get(L.norm_url(tgt), []), tgt)
+                cases.append(f"(P0, ({coq_opt(ctx, str)}, {ref_term(marks[kk][1])}), {ires_term(res)})")
+                infos.append({"ctx": ctx, "ref": ref_text(marks[kk][1]), "impl": res, "marker": kk})
+            stats["judged"] += len(cases)
+            evaluate(chk, "Definition P0 : proj := " + proj_term(ab2) + ".", cases, infos,
+                     "reference resolved during a full FORD run", {"files": files})
+            # (2) the URL from every page on which the text is displayed
             occ = scan_output(doc)
-            stats["markers"] += len(exp)
+            stats["markers"] += len(records)
             stats["occurrences"] += len(occ)
             stats["pages_with_refs"] += len({pg for pg, _, _ in occ})
             probs = []
-            seen = set()
             for page, kk, inner in occ:
-                seen.add(kk)
-                if kk not in exp:
+                if kk not in records:
                     continue
-                if marks[kk][0] == "@summary":
-                    key = "summary-links-relative-to-cwd"
-                    bad = check_occurrence(doc, page, inner, exp[kk])
-                    if bad:
-                        chk.disagreements += 1
-                        if not chk.known(key, True):
-                            probs.append(f"{page}: marker {kk} {ref_text(marks[kk][1])}: {bad}")
-                    continue
-                bad = check_occurrence(doc, page, inner, exp[kk])
+                tgt = record_target(records[kk])
+                exp = ("plain",) if tgt is None else ("link", tgt)
+                bad = check_occurrence(doc, page, inner, exp)
+                if bad and marks[kk][0] == "@summary":
+                    chk.disagreements += 1
+                    if chk.known("summary-links-relative-to-cwd", True):
+                        continue
+                if bad and "does not exist" in bad and tgt.startswith("namelist/"):
+                    chk.disagreements += 1
+                    if chk.known("module-namelist-no-page", True):
+                        continue
                 if bad:
                     probs.append(f"{page}: marker {kk} {ref_text(marks[kk][1])} ({marks[kk][0]}): {bad}")
-            missing = [kk for kk in exp if kk not in seen]
-            if len(missing) > len(exp) // 2:
-                probs.append(f"{len(missing)} of {len(exp)} references do not appear on any page")
+            missing = [kk for kk in marks if kk not in skip and kk not in records]
+            if len(missing) > len(marks) // 2:
+                probs.append(f"{len(missing)} of {len(marks)} references were never converted")
             # code spans stay verbatim
             for f in doc.rglob("*.html"):
                 t = f.read_text(errors="replace")
@@ -421,3 +475,192 @@ def end_to_end(chk, rng, nproj):
                 chk.violation("failing-input", {"what": "references on the pages of a full FORD run",
                                                 "problems": probs[:10], "files": files}, True)
     chk.extra["end_to_end"] = stats
+
+
+def evaluate(chk, defs, cases, infos, what, extra):
+    """run the judge over cases that share the project definitions in defs; classify"""
+    if not cases:
+        return
+    res = chk.coq_judge(IMPORTS, CASE_T, "judge", cases, shard=250, defs=defs)
+    if res is None:
+        return
+    chk.traces += len(cases)
+    regions = chk.extra.setdefault("region_counts", {"kind_skips_context": 0, "error": 0})
+    for idx, code in sorted(res.items()):
+        region = code >> 2
+        if code & 2 and region & 1:
+            regions["kind_skips_context"] += 1
+        if code & 2 and region & 2:
+            regions["error"] += 1
+        if not code & 3:
+            continue
+        payload = dict(extra)
+        payload.update({"what": what, "case": infos[idx], "code": code,
+                        "meaning": "bit0 model!=impl, bit1 impl violates the Spec, region bits: 1 kind word skips "
+                                   "the context, 2 exception, 4 attribute not chained by children"})
+        if code & 1:
+            chk.disagreements += 1
+            found = bool(code & 2 and not region & 3)
+            chk.violation("failing-input" if found else "broken-correspondence", payload, found)
+        else:
+            chk.disagreements += 1
+            ok = bool(region & 3)
+            if region & 1:
+                ok = chk.known("qualified-ref-skips-context", True) and ok
+            if region & 2:
+                ok = chk.known("link-error-aborts-run", True) and ok
+            if not ok:
+                chk.violation("failing-input", payload, True)
+
+
+# ----------------------------------------------------------------------------- known findings
+def replay_known(chk):
+    files = {"src/a.f90": "subroutine reset()\n  !! top\nend subroutine\n",
+             "src/b.f90": "module m\n  type :: shape\n    integer :: n\n  end type\n  interface gen\n"
+                          "    module procedure reset\n  end interface\ncontains\n  subroutine reset()\n    !! mine\n"
+                          "  end subroutine\nend module\n"}
+    w, p, ab, md, base = setup_project(files)
+    try:
+        ctx = next(i for i, e in enumerate(ab.ents) if e["name"] == "reset" and e["parent"] is not None
+                   and e["cls"] == "FortranSubroutine")
+        a = L.convert(md, base, ab, ctx, "[[reset]]")
+        b = L.convert(md, base, ab, ctx, "[[reset(proc)]]")
+        chk.known("qualified-ref-skips-context", a[0] == "link" and b[0] == "link" and a[2] != b[2])
+        errs = [L.convert(md, base, ab, None, t, path=base / "page")[0]
+                for t in ["[[m:reset(bound)]]", "[[shape:shape(constructor)]]", "[[gen:reset(modproc)]]"]]
+        chk.known("link-error-aborts-run", "err" in errs)
+    finally:
+        w.__exit__()
+    with F.Work({"src/a.f90": "module ma\n  !! A module.\nend module\n"}) as w2:
+        data, log, err = F.full_run_inprocess(w2.root, {"summary": "SUMM [[ma]] MMUS"})
+        t = (w2.root / "doc" / "index.html").read_text() if not err else ""
+        hrefs = re.findall(r'SUMM <a href="([^"]*)"', t)
+        chk.known("summary-links-relative-to-cwd", bool(hrefs) and not all((w2.root / "doc" / h).exists() for h in hrefs))
+    with F.Work({"src/a.f90": "module ma\n  !! See [[nl]] here.\n  integer :: v\n  namelist /nl/ v\nend module\n"}) as w3:
+        data, log, err = F.full_run_inprocess(w3.root, {})
+        t = (w3.root / "doc" / "module" / "ma.html").read_text() if not err else ""
+        m = re.search(r'See <a href="([^"]*)"', t)
+        chk.known("module-namelist-no-page", bool(m) and not (w3.root / "doc" / "module" / m.group(1)).exists())
+
+
+# ----------------------------------------------------------------------------- the check
+def direct_batch(chk, rng, projects, what):
+    """projects: list of (files, settings, extra queries); all judged in one Coq run"""
+    defs, cases, infos = [], [], []
+    dist = chk.extra.setdefault("generator_distribution", {"projects": 0, "entities": 0, "queries": 0, "link": 0,
+                                                           "plain": 0, "err": 0, "with_context": 0, "with_kind": 0,
+                                                           "with_item": 0})
+    for n, (files, settings, fixed, nrandom) in enumerate(projects):
+        w, p, ab, md, base = setup_project(files, **settings)
+        try:
+            bad = ab.unsupported()
+            if bad:
+                chk.notes.append(f"project {n}: not representable: {bad[:3]}")
+                continue
+            qs = [(c, parse_ref(t)) for c, t in fixed(ab)] + queries_for(rng, ab, nrandom)
+            res = run_queries(ab, md, base, qs)
+        finally:
+            w.__exit__()
+        defs.append(f"Definition P{n} : proj := {proj_term(ab)}.")
+        dist["projects"] += 1
+        dist["entities"] += len(ab.ents)
+        for (ctx, r), x in zip(qs, res):
+            if x[0] == "other":
+                chk.violation("failing-input", {"what": "a well-formed reference was not converted",
+                                                "ref": ref_text(r), "output": x[1], "files": files}, True)
+                continue
+            dist["queries"] += 1
+            dist[x[0]] += 1
+            dist["with_context"] += ctx is not None
+            dist["with_kind"] += r[1] is not None
+            dist["with_item"] += r[2] is not None
+            chk.count(("q", n, ctx, r), nontrivial=x[0] != "plain",
+                      sample={"context": ab.ents[ctx]["name"] if ctx is not None else None, "ref": ref_text(r),
+                              "impl": list(x[:3])})
+            cases.append(f"(P{n}, ({coq_opt(ctx, str)}, {ref_term(r)}), {ires_term(x)})")
+            infos.append({"project": n, "ctx": ctx, "ctx_name": ab.ents[ctx]["name"] if ctx is not None else None,
+                          "ref": ref_text(r), "impl": list(x), "files": files, "settings": {k: str(v) for k, v in settings.items()}})
+    evaluate(chk, "\n".join(defs), cases, infos, what, {})
+
+
+def corpus_queries(ab):
+    ctxs = [None] + ab.contexts()
+    return [(c, t) for c in ctxs for t in CORPUS_REFS]
+
+
+def run(chk):
+    chk.translate(["t2_linktypes.py"])
+    chk.build(["theories/Corr/C11.vo", "theories/Props/C11.vo"])
+    chk.props("theories/Props/C11.v", THEOREMS)
+    rng = chk.rng
+    quick = chk.tier == "quick"
+    projects = [(CORPUS_FILES, {}, corpus_queries, 40),
+                (CORPUS_FILES, {"display": ["public", "private", "protected"], "proc_internals": True},
+                 corpus_queries, 40)]
+    for i in range(4 if quick else 40):
+        pj = G.gen(rng, {"p_private": 0.25 if i % 2 else 0.0})
+        settings = {} if i % 3 else {"display": ["public", "private", "protected"]}
+        projects.append((G.fill(pj["files"], {}), settings, lambda ab: [], 120 if quick else 300))
+    for i in range(0, len(projects), 8):
+        direct_batch(chk, rng, projects[i:i + 8], "one reference converted by the real markdown pipeline in a context")
+    end_to_end(chk, rng, 4 if quick else 40)
+    replay_known(chk)
+    if not quick:
+        chk.coqchk(["Ford.Props.C11"])
+
+
+def replay(chk, rep):
+    import shutil
+    try:
+        case = rep.get("case") or {}
+        files = case.get("files") or rep.get("files")
+        if not files:
+            print("nothing to replay:", rep.get("kind"), rep.get("broken"))
+            return 1
+        if "ref" in case and "problems" not in rep and "marker" not in case:
+            settings = {k: (eval(v) if v.startswith("[") else v == "True") for k, v in (case.get("settings") or {}).items()}
+            w, p, ab, md, base = setup_project(files, **settings)
+            try:
+                ctx = case["ctx"]
+                r = parse_ref(case["ref"][2:-2])
+                x = L.convert(md, base, ab, ctx, case["ref"], path=None if ctx is not None else base / "page" / "sub")
+            finally:
+                w.__exit__()
+            print("impl:", x[:4])
+            chk.build(["theories/Corr/C11.vo"])
+            res = chk.coq_judge(IMPORTS, CASE_T, "judge",
+                                [f"(P0, ({coq_opt(ctx, str)}, {ref_term(r)}), {ires_term(x)})"],
+                                defs=f"Definition P0 : proj := {proj_term(ab)}.")
+            print("judge code:", res)
+            return 1 if res and any(c & 3 for c in res.values()) else 0
+        with F.Work(files) as w2:
+            pages = {k: v for k, v in files.items() if k.startswith("pages/")}
+            err, log, records, project = spied_run(w2.root, {"page_dir": "./pages"} if pages else {}, "Project.\n")
+            print("full run error:", err, "| references converted:", len(records))
+            print("problems recorded:", rep.get("problems"))
+            return 1
+    finally:
+        shutil.rmtree(chk.tmp, ignore_errors=True)
+
+
+def finish(chk):
+    return chk.finish(
+        level_note="Coq proofs over all abstract projects / contexts / references about the convert_link model; the "
+                   "kind tables are regenerated from the source (T2) and proved equal to the documented ones; model "
+                   "tied to FordLinkProcessor / Project.find / find_child by differential runs of the real markdown "
+                   "conversion on generated projects and on full FORD runs",
+        trusted_base=["Coq 8.16.1 kernel (vm_compute for case evaluation, table facts and witnesses)",
+                      "translate/t2_linktypes.py", "hand-written model Out/Links.v",
+                      "harness/props/c11.py, harness/impl/c11links.py (abstract project read off the real Project "
+                      "object; entity identified by its URL), harness/gen/c11proj.py"],
+        rule="(project, context entity or none, reference spelling) triples: every entity as target in every documented "
+             "spelling from itself / its parent / a sibling / an unrelated entity / no context, plus random "
+             "combinations over a small name pool reused across kinds and levels; distinct = distinct triple whose "
+             "result is not plain text; plus references placed in docstrings, project file, summary and nested "
+             "static pages of full runs and followed from every page that shows them",
+        checker_cmd="make theories/Props/C11.vo && coqc theories/Props/C11.v (Print Assumptions)",
+        assumptions=["the abstract project is read off FORD's own Project object (parsing is not re-verified here)",
+                     "python-markdown's pattern priorities (code spans) are tested end-to-end only",
+                     "within one level the user guide leaves the choice among equally named entities open (the Spec "
+                     "accepts any of them)",
+                     "a missing item yields plain text or a link to the component (both accepted)"])
